@@ -1,6 +1,6 @@
 (** Single dispatch point: the extracted driver and the in-Coq cross-check both call this. *)
 From Coq Require Import ZArith QArith String List.
-From QS Require Import theories.Val theories.EntryBroker.
+From QS Require Import theories.Val theories.EntryBroker theories.EntryCal.
 Import ListNotations.
 Open Scope string_scope.
 
@@ -10,4 +10,7 @@ Definition dispatch (name : string) (v : val) : val :=
   else if String.eqb name "is_open" then entry_is_open v
   else if String.eqb name "num" then entry_num v
   else if String.eqb name "fee" then entry_fee v
+  else if String.eqb name "sim_events" then entry_sim_events v
+  else if String.eqb name "schedule" then entry_schedule v
+  else if String.eqb name "civil" then entry_civil v
   else VL [VS "UNKNOWN_ENTRY"].
